@@ -26,6 +26,16 @@ def shard_fn(shard, nshards, seed, tier, exe, ninputs):
     items = [("listed-witness", bytes.fromhex(k["witness_hex"])) for k in known] + [("literal", l) for l in lits]
     for _ in range(per):
         items.append(ig.next())
+    # a few long inputs: tokens far longer than the tokener's scratch buffer, containers across several growth steps
+    from gen.docs import DocGen
+    bigdg = DocGen(rng, max_depth=20, budget=40, big=True)
+    for _ in range(max(1, per // 60)):
+        for _try in range(30):
+            t, _v = bigdg.document()
+            if 300 < len(t) <= 1500:
+                items.append(("long", t))
+                break
+    items.append(("long", b'["' + bytes(rng.choice(b"ab\\\"/ \xc3\xa9") if rng.random() > 0.1 else 0x61 for _ in range(rng.choice([100, 255, 256, 257, 600]))).replace(b'\\"', b"q").replace(b'"', b"'") + b'",' + b"1234567890" * rng.choice([3, 7, 20]) + b"]"))
     for i, (kind, s) in enumerate(items):
         cid = "%d.%d" % (shard, i)
         sd = rng.getrandbits(32)
@@ -33,7 +43,11 @@ def shard_fn(shard, nshards, seed, tier, exe, ninputs):
             cmds = ["T 0xff 8 %d x%s" % (sd, s.hex()), "X 0x0f 0 4 %d x%s" % (sd, s.hex())]
         else:
             # every 2-split (n<=256), every 3-split (n<=32), all-1-byte, 8 random partitions, 8 flag sets
-            cmds = ["X 0xff 32 8 %d x%s" % (sd, s.hex())]
+            if kind == "long":
+                # every 2-split under two random flag sets + 24 random partitions (nrand < 0 asks for all 2-splits beyond 256 bytes)
+                cmds = ["X %d 0 -24 %d x%s" % (1 << rng.randrange(8) | 1, sd, s.hex())]
+            else:
+                cmds = ["X 0xff 32 8 %d x%s" % (sd, s.hex())]
             if rng.random() < 0.15 or kind in ("literal", "listed-witness"):
                 cmds.append("T 0x0f 4 %d x%s" % (sd, s.hex()))
         cases.append((cid, cmds))
@@ -86,7 +100,7 @@ def shard_fn(shard, nshards, seed, tier, exe, ninputs):
                         what = "stream resumed at reported ends differs between one-shot and chunked feeding (cuts %s, flags 0x%x): %s vs %s" % (cuts, flags, m.group(4), m.group(5))
                     sh.violation(key, what + "; input=%r" % s[:120], {"driver": "splitdrv", "variant": "asan", "script": [cmd], "input": repr(s), "input_hex": s.hex(), "cuts": cuts, "flags": flags})
                     break
-        if len(s) <= 256 and kind in ("valid", "lenient", "literal", "stream"):
+        if len(s) <= 256 and kind in ("valid", "lenient", "literal", "stream") or kind == "long":
             if lab is None:
                 lab = labels(s)
             for l in set(x for x in lab[1:len(s)] if x):
